@@ -257,7 +257,10 @@ func c15Run(c *vcore.Ctx) *vcore.Violation {
 	var body []string
 	for i := 0; i < ncalls; i++ {
 		if src.Bool(1, 8, "weirdnr") {
-			nr := src.Pick("nr", "9999", "-1", "0x40000001", "0x4000003b", "1000000", "335", "18446744073709551615")
+			// (the last five: a traced call's number in the low half of the register, garbage in the high half -
+			// the kernel and the filter look at 32 bits, the tracer reads all 64)
+			nr := src.Pick("nr", "9999", "-1", "0x40000001", "0x4000003b", "1000000", "335", "18446744073709551615",
+				"0x100000002", "0xffffffff00000002", "0x8000000000000101", "0x7fffffff00000015", "0xdeadbeef00000106")
 			body = append(body, "sys", nr, "0", "0", "0", "0", "0", "0")
 			sites = append(sites, "nr:"+nr)
 			continue
@@ -279,6 +282,10 @@ func c15Run(c *vcore.Ctx) *vcore.Violation {
 			} else {
 				args[2] = fl
 			}
+		}
+		if ps.name == "openat2" {
+			// the size of struct open_how is the program's to choose, too (the kernel refuses absurd ones itself)
+			args[3] = src.Pick("howsize", "24", "24", "0", "8", "4097", "0x4000000000000000", "18446744073709551615")
 		}
 		body = append(body, append([]string{"sys", fmt.Sprint(ps.nr)}, args...)...)
 		sites = append(sites, ps.name+":"+strings.SplitN(enc, ":", 2)[0])
